@@ -422,6 +422,13 @@ Section T3.
     { intros X. destruct (I_a _ _ _ _ _ I0 i X) as [_ Q]. apply Q. left. reflexivity. }
     assert (NTD : ~ In i td) by (inversion ND; assumption).
     assert (INC : incl td (i :: td)) by (intros x Hx; right; exact Hx).
+    destruct (negb (kind_known sc (r_known s) i)).
+    { (* no REST mapping: only the record of i changes *)
+      apply (Inv2_tbl sc c0 pl (i :: td) td s _ i [IEv (EApply g i AFail)]); try assumption.
+      - reflexivity.
+      - reflexivity.
+      - constructor; [exact I|constructor].
+      - intros j Hj. apply (tv_other s _ (mkRec i SApply AFailed RPending 0%N 0%Z)); [reflexivity|exact Hj]. }
     pose proof (same4_policy_apply_filter sc s i) as P.
     pose proof (policy_apply_filter_spec sc s i) as PS. cbv zeta in PS.
     destruct (policy_apply_filter sc s i) as [s1 f1]. cbn [fst snd] in P, PS. destruct P as [P1 [P2 [_ P4]]].
@@ -717,10 +724,10 @@ Section RunW2.
   Lemma plan_of_prune c : In (pobj_of_live c) (pl_prune pl) ->
     fo c0 (c_id c) = Some c /\ ~ In (c_id c) (pl_invalid pl) /\ ~ In (c_id c) (apply_ids pl).
   Proof.
-    intros H. rewrite plan_of_eq in H. destruct (bp_prune_valid sc _ _ _ H) as [Hc Hv]. rewrite <- plan_of_eq in Hv.
+    intros H. rewrite plan_of_eq in H. destruct (bp_prune_valid sc _ _ _ _ H) as [Hc Hv]. rewrite <- plan_of_eq in Hv.
     apply found_in_In in Hc. destruct Hc as [Hcand Hf]. split; [exact Hf|]. split; [exact Hv|].
     intros Ha. unfold apply_ids in Ha. apply in_map_iff in Ha. destruct Ha as [p [E Hp]].
-    rewrite plan_of_eq in Hp. destruct (bp_apply_is_local sc _ _ p Hp) as [l [-> Hl]]. cbn in E.
+    rewrite plan_of_eq in Hp. destruct (bp_apply_is_local sc _ _ _ p Hp) as [l [-> Hl]]. cbn in E.
     unfold cand_of in Hcand. apply (proj1 (sortn_In _ _)) in Hcand. apply (proj1 (diffn_In _ _ _)) in Hcand.
     apply (proj2 Hcand). rewrite <- E. apply in_map. exact Hl.
   Qed.
@@ -731,7 +738,7 @@ Section RunW2.
   Lemma plan_of_todo : NoDup (todo_of (tasks_of sc pl)).
   Proof.
     rewrite plan_of_eq.
-    apply (tasks_todo sc _ _ (locals_of_NoDup sc HND) (pobjs_NoDup sc c0) (pobjs_disj sc c0)).
+    apply (tasks_todo sc _ _ _ (locals_of_NoDup sc HND) (pobjs_NoDup sc c0) (pobjs_disj sc c0)).
   Qed.
 
   Lemma Inv2_start td s : r_cl s = c0 -> r_tr s = [] -> Inv2 sc c0 pl td s.
